@@ -36,6 +36,13 @@ type c17Ring struct {
 	name   string
 	exists bool
 	m      *c17Model
+	// limbo > 0: a trim to that version failed half-way because of a storage
+	// fault and has not been retried yet; versions below it may or may not
+	// have left storage already.
+	limbo int
+	// trimFault: the storage operation whose injected failure made an earlier,
+	// since retried, trim fail ("" if none).
+	trimFault string
 }
 
 // c17Entry is something a key version produced earlier in the history.
@@ -63,6 +70,19 @@ type c17Hist struct {
 	kctx   []byte
 	steps  []string
 	bad    bool
+
+	backups     []c17Backup
+	forceLatest bool // scenarios: producers always use the latest version
+
+	onFaultFail  func(what string) // hooks for the next faulted() call
+	onFaultRetry func()
+}
+
+// trimHooks: between a fault-failed trim and its retry the versions being
+// trimmed are in limbo for the storage oracle.
+func (h *c17Hist) trimHooks(g *c17Ring, v int) {
+	h.onFaultFail = func(what string) { g.limbo, g.trimFault = v, what }
+	h.onFaultRetry = func() { g.limbo = 0 }
 }
 
 func (h *c17Hist) log(format string, a ...any) {
@@ -295,14 +315,24 @@ func (h *c17Hist) checkStorage(g *c17Ring) {
 	for v, km := range g.m.Keys {
 		in := has(km.Needle)
 		switch {
+		case v >= lo && v < g.limbo:
+			h.r.Count("storage_limbo_after_failed_trim", 1)
 		case v >= lo && v <= g.m.Latest:
-			if !in {
+			if !in && g.trimFault == "put_policy" && h.a.noCache {
+				// precise signature: cache-less, an earlier trim failed on the policy write after its archive write and was retried
+				h.violate(g, "C17-trim-retry-after-policy-write-fault", fmt.Sprintf("a trim failed on the policy write after the trimmed archive had been written; the retried trim (policy reloaded from storage) trimmed the archive a second time: key material of version %d, between the minimum available version and the latest, is gone from storage", v))
+			} else if !in && g.trimFault == "put_archive" && !h.a.noCache {
+				h.violate(g, "C17-trim-retry-after-archive-write-fault", fmt.Sprintf("a trim failed because the archive write failed, the retried trim succeeded without re-basing the archive (in-memory ArchiveMinVersion is not rolled back when Persist fails), so later archive writes land on the wrong index: key material of version %d, between the minimum available version and the latest, is not in storage", v))
+			} else if !in {
 				h.violate(g, "C17-archive-missing-version", fmt.Sprintf("storage does not contain the key material of version %d, which lies between the minimum available version and the latest", v))
 			} else {
 				h.r.Count("archive_has_version", 1)
 			}
 		case v < lo:
-			if in {
+			if in && g.trimFault == "put_archive" && !h.a.noCache {
+				// precise signature: cached policy, an earlier trim failed on the write of the archive entry and was retried
+				h.violate(g, "C17-trim-retry-after-archive-write-fault", fmt.Sprintf("a trim failed because the archive write failed, the retried trim succeeded, but the archive was never trimmed: key material of trimmed version %d is still in storage and the archive is indexed from the wrong base (in-memory ArchiveMinVersion is not rolled back when Persist fails)", v))
+			} else if in {
 				h.violate(g, "C17-trim-residue", fmt.Sprintf("key material of trimmed version %d is still in storage", v))
 			} else {
 				h.r.Count("trimmed_version_gone", 1)
@@ -312,6 +342,9 @@ func (h *c17Hist) checkStorage(g *c17Ring) {
 }
 
 func (h *c17Hist) pickVersion(g *c17Ring) int {
+	if h.forceLatest {
+		return 0
+	}
 	switch h.rng.Intn(10) {
 	case 0:
 		return -1
@@ -729,17 +762,156 @@ func (h *c17Hist) create(g *c17Ring) bool {
 		return false
 	}
 	g.exists = true
+	g.trimFault, g.limbo = "", 0
 	g.m = &c17Model{Latest: 1, MinDec: 1, Keys: map[int]*c17Material{1: km}}
 	return true
 }
 
-func (h *c17Hist) opConfig(g *c17Ring) {
+// ---------------------------------------------------------------- faults
+
+// byFault: the request failed while an injected storage fault had fired.
+func (h *c17Hist) byFault(resp c17Resp) bool {
+	return resp.Refused && h.a.fs != nil && h.a.fs.armed && h.a.fs.fired
+}
+
+func (h *c17Hist) checkAll(skip *c17Ring) {
+	for _, ring := range h.rings {
+		if h.bad {
+			return
+		}
+		if ring.m == nil || ring == skip {
+			continue
+		}
+		h.checkReadback(ring)
+		if !h.bad {
+			h.checkLedger(ring)
+		}
+		if !h.bad {
+			h.checkStorage(ring)
+		}
+	}
+}
+
+// faulted runs one mutating request with the k-th storage operation failing
+// once (k < 0: no fault). do returns true when the request failed because of
+// the fault; the model is then unchanged, which the usual read-back / ledger /
+// storage replay verifies (except for skip, a ring whose state cannot be
+// known after a half-done restore), and the client retries the request.
+func (h *c17Hist) faulted(kind string, k int, skip *c17Ring, do func() bool) (fired bool) {
+	defer func() { h.onFaultFail, h.onFaultRetry = nil, nil }()
+	if h.a.fs == nil || k < 0 {
+		do()
+		return false
+	}
+	h.a.fs.arm(k)
+	failed := do()
+	fired, what := h.a.fs.disarm()
+	if !fired {
+		return false
+	}
+	h.r.Count("fault_fired:"+kind+":"+what, 1)
+	if !failed {
+		h.r.Count("fault_tolerated:"+kind, 1)
+		return true
+	}
+	h.r.Count("fault_failed_request:"+kind, 1)
+	h.log("  storage fault on %s (op #%d) made the %s fail; model unchanged; the client retries", what, k, kind)
+	if h.onFaultFail != nil {
+		h.onFaultFail(what)
+	}
+	if !h.bad {
+		h.checkAll(skip)
+	}
+	if h.onFaultRetry != nil {
+		h.onFaultRetry()
+	}
+	h.onFaultFail, h.onFaultRetry = nil, nil
+	if h.bad {
+		return true
+	}
+	h.a.fs.arm(-1)
+	do()
+	h.r.Count("fault_retried:"+kind, 1)
+	return true
+}
+
+func (h *c17Hist) pickFault() int {
+	if h.a.fs != nil && h.rng.Chance(2, 5) {
+		return h.rng.Intn(7)
+	}
+	return -1
+}
+
+func (h *c17Hist) doRotate(g *c17Ring) bool {
+	resp := h.a.write("keys/"+g.name+"/rotate", map[string]any{})
+	h.log("rotate %s refused=%v %s", g.name, resp.Refused, resp.Err)
+	if h.byFault(resp) {
+		return true
+	}
+	if resp.Refused {
+		if !g.m.SoftDeleted {
+			h.violate(g, "C17-rotate-failed", "rotate refused: "+resp.Err)
+		}
+		return false
+	}
+	km, err := h.a.capture(g.name, h.spec, g.m.Latest+1)
+	if err != nil {
+		h.violate(g, "C17-policy-bookkeeping", fmt.Sprintf("after rotate: %v", err))
+		return false
+	}
+	g.m.Latest++
+	g.m.Keys[g.m.Latest] = km
+	h.r.Count("rotations", 1)
+	return false
+}
+
+// genConfig draws a keys/<name>/config request.
+func (h *c17Hist) genConfig(g *c17Ring) map[string]any {
 	m := g.m
 	d := map[string]any{}
-	newD, newE := m.MinDec, m.MinEnc
+	switch h.rng.Intn(10) {
+	case 0, 1, 2: // raise (or keep) min_decryption_version within what min_encryption_version allows
+		hi := m.Latest
+		if m.MinEnc > 0 && m.MinEnc < hi {
+			hi = m.MinEnc
+		}
+		if hi < m.MinDec {
+			hi = m.MinDec
+		}
+		d["min_decryption_version"] = m.MinDec + h.rng.Intn(hi-m.MinDec+1)
+	case 3: // lower it
+		lo := m.MinAvail
+		if lo < 1 {
+			lo = 1
+		}
+		d["min_decryption_version"] = lo + h.rng.Intn(m.MinDec-lo+1)
+	case 4, 5: // a legal min_encryption_version
+		d["min_encryption_version"] = m.MinDec + h.rng.Intn(m.Latest-m.MinDec+1)
+	case 6: // both, legal
+		nd := m.MinDec + h.rng.Intn(m.Latest-m.MinDec+1)
+		d["min_decryption_version"] = nd
+		d["min_encryption_version"] = nd + h.rng.Intn(m.Latest-nd+1)
+	default: // anything, often illegal
+		if h.rng.Chance(3, 5) {
+			d["min_decryption_version"] = -1 + h.rng.Intn(m.Latest+3)
+		}
+		if h.rng.Chance(1, 2) || len(d) == 0 {
+			d["min_encryption_version"] = -1 + h.rng.Intn(m.Latest+3)
+		}
+	}
+	if h.rng.Chance(1, 5) {
+		d["deletion_allowed"] = !m.DeletionAllowed
+	}
+	return d
+}
+
+// doConfig sends d and judges the outcome against the documented rules.
+func (h *c17Hist) doConfig(g *c17Ring, d map[string]any) bool {
+	m := g.m
+	newD, newE, newDel := m.MinDec, m.MinEnc, m.DeletionAllowed
 	must := false
-	setD := func(v int) {
-		d["min_decryption_version"] = v
+	if raw, ok := d["min_decryption_version"]; ok {
+		v := raw.(int)
 		dd := v
 		if dd == 0 {
 			dd = 1
@@ -750,48 +922,16 @@ func (h *c17Hist) opConfig(g *c17Ring) {
 			newD = dd
 		}
 	}
-	setE := func(v int) {
-		d["min_encryption_version"] = v
+	if raw, ok := d["min_encryption_version"]; ok {
+		v := raw.(int)
 		if v < 0 || v > m.Latest {
 			must = true
 		} else {
 			newE = v
 		}
 	}
-	switch h.rng.Intn(10) {
-	case 0, 1, 2: // raise (or keep) min_decryption_version within what min_encryption_version allows
-		hi := m.Latest
-		if m.MinEnc > 0 && m.MinEnc < hi {
-			hi = m.MinEnc
-		}
-		if hi < m.MinDec {
-			hi = m.MinDec
-		}
-		setD(m.MinDec + h.rng.Intn(hi-m.MinDec+1))
-	case 3: // lower it
-		lo := m.MinAvail
-		if lo < 1 {
-			lo = 1
-		}
-		setD(lo + h.rng.Intn(m.MinDec-lo+1))
-	case 4, 5: // a legal min_encryption_version
-		setE(m.MinDec + h.rng.Intn(m.Latest-m.MinDec+1))
-	case 6: // both, legal
-		nd := m.MinDec + h.rng.Intn(m.Latest-m.MinDec+1)
-		setD(nd)
-		setE(nd + h.rng.Intn(m.Latest-nd+1))
-	default: // anything, often illegal
-		if h.rng.Chance(3, 5) {
-			setD(-1 + h.rng.Intn(m.Latest+3))
-		}
-		if h.rng.Chance(1, 2) || len(d) == 0 {
-			setE(-1 + h.rng.Intn(m.Latest+3))
-		}
-	}
-	newDel := m.DeletionAllowed
-	if h.rng.Chance(1, 5) {
-		newDel = !newDel
-		d["deletion_allowed"] = newDel
+	if raw, ok := d["deletion_allowed"]; ok {
+		newDel = raw.(bool)
 	}
 	if newE > 0 && newE < newD {
 		must = true
@@ -808,6 +948,8 @@ func (h *c17Hist) opConfig(g *c17Ring) {
 	resp := h.a.write("keys/"+g.name+"/config", d)
 	h.log("config %s %v -> refused=%v %s", g.name, d, resp.Refused, resp.Err)
 	switch {
+	case h.byFault(resp):
+		return true
 	case resp.Refused && must:
 		h.r.Count("config_invalid_refused", 1)
 	case resp.Refused && either:
@@ -825,11 +967,11 @@ func (h *c17Hist) opConfig(g *c17Ring) {
 		m.MinDec, m.MinEnc, m.DeletionAllowed = newD, newE, newDel
 		h.r.Count("config_accepted", 1)
 	}
+	return false
 }
 
-func (h *c17Hist) opTrim(g *c17Ring) {
+func (h *c17Hist) genTrim(g *c17Ring) int {
 	m := g.m
-	var v int
 	hi := m.MinDec
 	if m.MinEnc < hi {
 		hi = m.MinEnc
@@ -842,14 +984,19 @@ func (h *c17Hist) opTrim(g *c17Ring) {
 		if lo > hi {
 			lo = hi
 		}
-		v = lo + h.rng.Intn(hi-lo+1)
-	} else {
-		v = -1 + h.rng.Intn(m.Latest+3)
+		return lo + h.rng.Intn(hi-lo+1)
 	}
+	return -1 + h.rng.Intn(m.Latest+3)
+}
+
+func (h *c17Hist) doTrim(g *c17Ring, v int) bool {
+	m := g.m
 	must := v <= 0 || v < m.MinAvail || m.MinEnc == 0 || v > m.MinEnc || v > m.MinDec
 	resp := h.a.write("keys/"+g.name+"/trim", map[string]any{"min_available_version": v})
 	h.log("trim %s min_available_version=%d -> refused=%v %s", g.name, v, resp.Refused, resp.Err)
 	switch {
+	case h.byFault(resp):
+		return true
 	case resp.Refused && must:
 		h.r.Count("trim_invalid_refused", 1)
 	case resp.Refused && m.SoftDeleted:
@@ -863,11 +1010,54 @@ func (h *c17Hist) opTrim(g *c17Ring) {
 		}
 		m.MinAvail = v
 	}
+	return false
 }
 
 type c17Backup struct {
 	blob string
 	m    *c17Model
+}
+
+func (h *c17Hist) doBackup(g *c17Ring) bool {
+	resp := h.a.do(logical.ReadOperation, "backup/"+g.name, nil)
+	blob := c17Str(resp.Data["backup"])
+	h.log("backup %s refused=%v %s", g.name, resp.Refused, resp.Err)
+	switch {
+	case h.byFault(resp):
+		return true
+	case resp.Refused && g.m.SoftDeleted:
+	case resp.Refused || blob == "":
+		h.violate(g, "C17-backup-failed", "backup of an exportable key with allow_plaintext_backup failed: "+resp.Err)
+	case g.m.SoftDeleted:
+		h.violate(g, "C17-deleted-key-used", "a soft-deleted key was backed up")
+	default:
+		h.backups = append(h.backups, c17Backup{blob, g.m.clone()})
+		h.r.Count("backups", 1)
+	}
+	return false
+}
+
+func (h *c17Hist) doRestore(target *c17Ring, b c17Backup, force bool) bool {
+	resp := h.a.write("restore/"+target.name, map[string]any{"backup": b.blob, "force": force})
+	h.log("restore -> %s force=%v backup(latest=%d min_dec=%d min_avail=%d) refused=%v %s", target.name, force, b.m.Latest, b.m.MinDec, b.m.MinAvail, resp.Refused, resp.Err)
+	switch {
+	case h.byFault(resp):
+		return true
+	case !force && target.exists:
+		if !resp.Refused {
+			h.violate(target, "C17-restore-overwrote", "restore without force replaced an existing key")
+		} else {
+			h.r.Count("restore_noforce_refused", 1)
+		}
+	case resp.Refused:
+		h.violate(target, "C17-restore-failed", "restore failed: "+resp.Err)
+	default:
+		target.exists = true
+		target.m = b.m.clone()
+		target.trimFault, target.limbo = "", 0
+		h.r.Count("restores", 1)
+	}
+	return false
 }
 
 var c17APISpecs = []c17Spec{
@@ -892,9 +1082,31 @@ var c17APISpecs = []c17Spec{
 func TestVerif_C17_History(t *testing.T) {
 	seed := kit.Seed(17)
 	shard := c17Shard()
-	r := kit.NewResult(t, "c17-api-history", seed, "case = one seeded history of 40 requests against the transit backend (HandleRequest, in-memory storage, cached and cache-less, backend restarts) over up to three key rings of one type: create, rotate, keys/config with valid and invalid min_decryption/min_encryption/deletion_allowed, trim, backup, restore (forced over the same name, non-forced, to a sibling name), soft-delete and its restore, delete and re-create, encrypt/decrypt single and batch (with tampered items), rewrap, sign, hmac; after every request the key read-back must equal the reference model, remembered ciphertexts/signatures/HMACs (newest per key version + sample) are replayed against every ring and must be accepted with the original content iff the ring exists, is not soft-deleted, min_dec <= version <= latest and that version holds the generating key, producers must refuse versions below min_encryption_version, outputs are re-checked with the Go primitives on the stored key material, storage must hold key material for [min_available, latest] and none for trimmed versions or deleted keys; a history is non-trivial when its request sequence is distinct")
+	r := kit.NewResult(t, "c17-api-history", seed, "case = one seeded history of 40 requests against the transit backend (HandleRequest, in-memory storage, cached and cache-less, backend restarts) over up to three key rings of one type: create, rotate, keys/config with valid and invalid min_decryption/min_encryption/deletion_allowed, trim, backup, restore (forced over the same name, non-forced, to a sibling name), soft-delete and its restore, delete and re-create, encrypt/decrypt single and batch (with tampered items), rewrap, sign, hmac; in two thirds of the histories the storage is a non-transactional wrapper that makes one PRNG-chosen storage operation (get/put/delete #0..6) of a rotate/config/trim/backup/restore request fail once, after which the client retries; plus fixed scenarios in which EVERY storage-operation index of rotate / raise min_dec / lower min_dec / trim / restore is failed in turn and the key is then rotated, used, and min_decryption_version raised to latest and lowered again. After every request the key read-back must equal the reference model (unchanged after a request that failed), remembered ciphertexts/signatures/HMACs (newest per key version + sample) are replayed against every ring and must be accepted with the original content iff the ring exists, is not soft-deleted, min_dec <= version <= latest and that version holds the generating key, producers must refuse versions below min_encryption_version, outputs are re-checked with the Go primitives on the stored key material, storage must hold key material for [min_available, latest] and none for trimmed versions or deleted keys; a history is non-trivial when its request sequence is distinct")
 	defer r.Write(t)
 	ctx := context.Background()
+	// fixed scenarios: every storage-op index of each maintenance request
+	scenSpecs := []c17Spec{{Type: "aes256-gcm96"}, {Type: "chacha20-poly1305", Derived: true}, {Type: "aes128-gcm96", Derived: true, Convergent: true}, {Type: "ed25519"}, {Type: "ecdsa-p256"}}
+	if kit.Tier() == "thorough" {
+		scenSpecs = append(scenSpecs, c17APISpecs[1], c17APISpecs[3], c17APISpecs[8], c17APISpecs[10], c17APISpecs[14], c17APISpecs[15])
+	}
+	for si, spec := range scenSpecs {
+		for _, noCache := range []bool{false, true} {
+			for _, kind := range c17ScenarioKinds {
+				for k := 0; k < 40; k++ {
+					id := fmt.Sprintf("scen:%d:%s:%v:%s:%d", shard, spec.name(), noCache, kind, k)
+					if !kit.WantCase(id) {
+						continue
+					}
+					rng := kit.NewRand(seed, 1767000+uint64(si)*100+uint64(k)+100000*uint64(shard))
+					if !c17RunAPIScenario(ctx, r, rng, id, spec, noCache, kind, k) {
+						break // op index k does not exist: all indices of this request were enumerated
+					}
+				}
+				r.Count("scenario_requests_fully_enumerated", 1)
+			}
+		}
+	}
 	n := kit.N(192, 2400)
 	for i := 0; i < n; i++ {
 		id := fmt.Sprintf("api:%d:%d", shard, i)
@@ -906,7 +1118,7 @@ func TestVerif_C17_History(t *testing.T) {
 		if spec.isRSA() && i >= kit.N(2, 4)*len(c17APISpecs) {
 			spec = c17APISpecs[rng.Intn(len(c17APISpecs)-1)]
 		}
-		c17RunAPIHistory(ctx, r, rng, id, spec, (i/len(c17APISpecs))%2 == 1)
+		c17RunAPIHistory(ctx, r, rng, id, spec, (i/len(c17APISpecs))%2 == 1, i%3 != 0)
 	}
 	r.Require("hist_decrypt_ok_old_version", 300)
 	r.Require("hist_refused_below_min_dec", 100)
@@ -927,18 +1139,157 @@ func TestVerif_C17_History(t *testing.T) {
 	r.Require("config_accepted", 100)
 	r.Require("config_invalid_refused", 50)
 	r.Require("deleted_key_left_nothing", 3)
+	r.Require("fault_failed_request:rotate", 20)
+	r.Require("fault_failed_request:config", 20)
+	r.Require("fault_failed_request:trim", 10)
+	r.Require("fault_failed_request:restore", 10)
+	r.Require("fault_fired:rotate:put_policy", 5)
+	r.Require("fault_fired:rotate:put_archive", 5)
+	r.Require("fault_retried:rotate", 20)
+	r.Require("scenario_requests_fully_enumerated", 30)
 }
 
-func c17RunAPIHistory(ctx context.Context, r *kit.Result, rng *kit.Rand, id string, spec c17Spec, noCache bool) {
+func c17NewHist(ctx context.Context, r *kit.Result, rng *kit.Rand, id string, spec c17Spec, noCache, faults bool) *c17Hist {
 	a, err := c17NewAPI(ctx, r, id, noCache)
 	if err != nil {
 		r.Inconc("%s: backend: %v", id, err)
-		return
+		return nil
+	}
+	if faults {
+		a.withFaults()
 	}
 	h := &c17Hist{a: a, r: r, rng: rng, id: id, spec: spec}
 	if spec.Derived {
 		h.kctx = rng.Bytes(1 + rng.Intn(32))
 	}
+	return h
+}
+
+var c17ScenarioKinds = []string{"rotate", "raise-min-dec", "lower-min-dec", "trim", "restore", "backup"}
+
+// c17RunAPIScenario: a fixed history in which storage operation #k of one
+// maintenance request fails once. Returns false when the request has no k-th
+// storage operation (enumeration complete).
+func c17RunAPIScenario(ctx context.Context, r *kit.Result, rng *kit.Rand, id string, spec c17Spec, noCache bool, kind string, k int) bool {
+	h := c17NewHist(ctx, r, rng, id, spec, noCache, true)
+	if h == nil {
+		return false
+	}
+	r.Eval(1)
+	r.Nontrivial(id)
+	g := &c17Ring{name: "k"}
+	h.rings = []*c17Ring{g}
+	if !h.create(g) {
+		return false
+	}
+	h.forceLatest = true
+	step := 0
+	produce := func() {
+		step++
+		if h.bad {
+			return
+		}
+		switch {
+		case spec.encrypts():
+			h.opEncrypt(g, step)
+		case spec.signs():
+			h.opSign(g, step)
+		default:
+			h.opHMAC(g, step)
+		}
+		h.opHMAC(g, step)
+		if !h.bad {
+			h.checkAll(nil)
+		}
+	}
+	plain := func(f func() bool) {
+		if !h.bad {
+			f()
+		}
+		if !h.bad {
+			h.checkAll(nil)
+		}
+	}
+	produce()
+	plain(func() bool { return h.doRotate(g) })
+	produce()
+	plain(func() bool { return h.doBackup(g) })
+	fired := false
+	target := func(kind string, skip *c17Ring, f func() bool) {
+		if h.bad {
+			return
+		}
+		fired = h.faulted(kind, k, skip, f)
+		if !h.bad {
+			h.checkAll(nil)
+		}
+	}
+	switch kind {
+	case "rotate":
+		target("rotate", nil, func() bool { return h.doRotate(g) })
+	case "raise-min-dec":
+		plain(func() bool { return h.doRotate(g) })
+		produce()
+		target("config", nil, func() bool { return h.doConfig(g, map[string]any{"min_decryption_version": 3}) })
+	case "lower-min-dec":
+		plain(func() bool { return h.doRotate(g) })
+		produce()
+		plain(func() bool { return h.doConfig(g, map[string]any{"min_decryption_version": 3}) })
+		target("config", nil, func() bool { return h.doConfig(g, map[string]any{"min_decryption_version": 1}) })
+	case "trim":
+		plain(func() bool { return h.doRotate(g) })
+		produce()
+		plain(func() bool {
+			return h.doConfig(g, map[string]any{"min_decryption_version": 2, "min_encryption_version": 3})
+		})
+		h.trimHooks(g, 2)
+		target("trim", nil, func() bool { return h.doTrim(g, 2) })
+	case "restore":
+		plain(func() bool { return h.doRotate(g) })
+		produce()
+		if len(h.backups) > 0 {
+			b := h.backups[0]
+			target("restore", g, func() bool { return h.doRestore(g, b, true) })
+		}
+	case "backup":
+		plain(func() bool { return h.doRotate(g) })
+		target("backup", nil, func() bool { return h.doBackup(g) })
+	}
+	// afterwards the key ring is used like any other
+	produce()
+	plain(func() bool { return h.doRotate(g) })
+	produce()
+	plain(func() bool { return h.doRotate(g) })
+	produce()
+	lo := g.m.MinAvail
+	if lo < 1 {
+		lo = 1
+	}
+	plain(func() bool {
+		return h.doConfig(g, map[string]any{"min_decryption_version": g.m.Latest, "min_encryption_version": g.m.Latest})
+	})
+	produce()
+	plain(func() bool { return h.doConfig(g, map[string]any{"min_decryption_version": lo}) })
+	produce()
+	if len(h.backups) > 0 {
+		b := h.backups[len(h.backups)-1]
+		plain(func() bool { return h.doRestore(g, b, true) })
+		plain(func() bool { return h.doRotate(g) })
+		produce()
+	}
+	r.Count("scenarios", 1)
+	if fired {
+		r.Count("scenarios_with_fault", 1)
+	}
+	return fired
+}
+
+func c17RunAPIHistory(ctx context.Context, r *kit.Result, rng *kit.Rand, id string, spec c17Spec, noCache, faults bool) {
+	h := c17NewHist(ctx, r, rng, id, spec, noCache, faults)
+	if h == nil {
+		return
+	}
+	a := h.a
 	r.Eval(1)
 	main := &c17Ring{name: "k"}
 	other := &c17Ring{name: "o"}
@@ -947,7 +1298,6 @@ func c17RunAPIHistory(ctx context.Context, r *kit.Result, rng *kit.Rand, id stri
 	if !h.create(main) || !h.create(other) {
 		return
 	}
-	var backups []c17Backup
 	var sigb strings.Builder
 	nops := 40
 	for step := 1; step <= nops && !h.bad; step++ {
@@ -973,70 +1323,31 @@ func c17RunAPIHistory(ctx context.Context, r *kit.Result, rng *kit.Rand, id stri
 		switch {
 		case op < 14:
 			sigb.WriteString("R")
-			resp := a.write("keys/"+g.name+"/rotate", map[string]any{})
-			h.log("rotate %s refused=%v %s", g.name, resp.Refused, resp.Err)
-			if resp.Refused {
-				if !g.m.SoftDeleted {
-					h.violate(g, "C17-rotate-failed", "rotate refused: "+resp.Err)
-				}
-				break
-			}
-			km, err := a.capture(g.name, spec, g.m.Latest+1)
-			if err != nil {
-				h.violate(g, "C17-policy-bookkeeping", fmt.Sprintf("after rotate: %v", err))
-				break
-			}
-			g.m.Latest++
-			g.m.Keys[g.m.Latest] = km
-			r.Count("rotations", 1)
+			h.faulted("rotate", h.pickFault(), nil, func() bool { return h.doRotate(g) })
 		case op < 34:
 			sigb.WriteString("c")
-			h.opConfig(g)
+			d := h.genConfig(g)
+			h.faulted("config", h.pickFault(), nil, func() bool { return h.doConfig(g, d) })
 		case op < 42:
 			sigb.WriteString("T")
-			h.opTrim(g)
+			v := h.genTrim(g)
+			h.trimHooks(g, v)
+			h.faulted("trim", h.pickFault(), nil, func() bool { return h.doTrim(g, v) })
 		case op < 47:
 			sigb.WriteString("B")
-			resp := a.do(logical.ReadOperation, "backup/"+g.name, nil)
-			blob := c17Str(resp.Data["backup"])
-			h.log("backup %s refused=%v %s", g.name, resp.Refused, resp.Err)
-			switch {
-			case resp.Refused && g.m.SoftDeleted:
-			case resp.Refused || blob == "":
-				h.violate(g, "C17-backup-failed", "backup of an exportable key with allow_plaintext_backup failed: "+resp.Err)
-			case g.m.SoftDeleted:
-				h.violate(g, "C17-deleted-key-used", "a soft-deleted key was backed up")
-			default:
-				backups = append(backups, c17Backup{blob, g.m.clone()})
-				r.Count("backups", 1)
-			}
+			h.faulted("backup", h.pickFault(), nil, func() bool { return h.doBackup(g) })
 		case op < 54:
-			if len(backups) == 0 {
+			if len(h.backups) == 0 {
 				continue
 			}
-			b := backups[rng.Intn(len(backups))]
+			b := h.backups[rng.Intn(len(h.backups))]
 			target := g
 			if rng.Chance(1, 3) {
 				target = sib
 			}
 			force := rng.Chance(3, 4)
 			sigb.WriteString("S" + target.name)
-			resp := a.write("restore/"+target.name, map[string]any{"backup": b.blob, "force": force})
-			h.log("restore -> %s force=%v backup(latest=%d min_dec=%d min_avail=%d) refused=%v %s", target.name, force, b.m.Latest, b.m.MinDec, b.m.MinAvail, resp.Refused, resp.Err)
-			switch {
-			case !force && target.exists:
-				if !resp.Refused {
-					h.violate(target, "C17-restore-overwrote", "restore without force replaced an existing key")
-				} else {
-					r.Count("restore_noforce_refused", 1)
-				}
-			case resp.Refused:
-				h.violate(target, "C17-restore-failed", "restore failed: "+resp.Err)
-			default:
-				target.exists = true
-				target.m = b.m.clone()
-				r.Count("restores", 1)
-			}
+			h.faulted("restore", h.pickFault(), target, func() bool { return h.doRestore(target, b, force) })
 		case op < 57:
 			sigb.WriteString("d")
 			resp := a.do(logical.DeleteOperation, "keys/"+g.name+"/soft-delete", nil)
@@ -1086,7 +1397,6 @@ func c17RunAPIHistory(ctx context.Context, r *kit.Result, rng *kit.Rand, id stri
 			h.log("backend restart")
 			r.Count("restarts", 1)
 		default:
-			// producers / consumers, by capability
 			var kinds []string
 			if spec.encrypts() {
 				kinds = append(kinds, "e", "e", "e", "eb", "db", "w", "w")
@@ -1115,24 +1425,13 @@ func c17RunAPIHistory(ctx context.Context, r *kit.Result, rng *kit.Rand, id stri
 				h.opHMAC(g, step)
 			}
 		}
-		for _, ring := range h.rings {
-			if h.bad {
-				break
-			}
-			if ring.m == nil {
-				continue
-			}
-			h.checkReadback(ring)
-			if !h.bad {
-				h.checkLedger(ring)
-			}
-			if !h.bad {
-				h.checkStorage(ring)
-			}
-		}
+		h.checkAll(nil)
 	}
-	r.Nontrivial(spec.name() + fmt.Sprint(noCache) + sigb.String())
+	r.Nontrivial(spec.name() + fmt.Sprint(noCache, faults) + sigb.String())
 	r.Count("histories", 1)
+	if faults {
+		r.Count("histories_with_fault_storage", 1)
+	}
 	if strings.HasSuffix(id, ":0") || strings.HasSuffix(id, ":9") {
 		st := h.steps
 		if len(st) > 14 {
